@@ -232,6 +232,16 @@ func model(c *Case) verdict {
 		}
 	}
 
+	if c.S.ClientAuth == 4 && c.S.ClientCAs && c.C.Cert != "" && c.S.PSK == "" {
+		allowed := c.S.CertSigSchemes
+		if len(allowed) == 0 {
+			allowed = c.S.SigSchemes
+		}
+		if len(allowed) > 0 && !slices.Contains(allowed, 0x0403) {
+			return verdict{mustFail: "client-chain-signature-not-allowed"}
+		}
+	}
+
 	return verdict{}
 }
 
@@ -542,6 +552,26 @@ func run(c Case, r *pbt.R) {
 				}
 			}
 		}
+		if okS && c.S.ClientAuth == 4 && c.S.ClientCAs {
+			allowed := c.S.CertSigSchemes
+			if len(allowed) == 0 {
+				allowed = c.S.SigSchemes
+			}
+			if sst, ok := p.S.Conn.ConnectionState(); ok && len(allowed) > 0 {
+				for i, der := range sst.PeerCertificates {
+					crt, err := x509.ParseCertificate(der)
+					if err != nil || bytes.Equal(crt.RawIssuer, crt.RawSubject) {
+						continue
+					}
+					if crt.SignatureAlgorithm == x509.ECDSAWithSHA256 && !slices.Contains(allowed, 0x0403) {
+						r.Failf(fmt.Sprintf("C11|certificate-signature-outside-server-policy|1.%d", ver-10), "server accepted a client chain whose certificate %d is signed with 0403; it allows %04x for certificates (cert list %04x, handshake list %04x)", i, allowed, c.S.CertSigSchemes, c.S.SigSchemes)
+
+						return
+					}
+					r.Class("client-chain-signature-checked")
+				}
+			}
+		}
 		// SRTP / ALPN
 		if prof, ok := side.Conn.SelectedSRTPProtectionProfile(); ok {
 			if !slices.Contains(c.C.SRTP, uint16(prof)) || !slices.Contains(c.S.SRTP, uint16(prof)) {
@@ -796,6 +826,13 @@ func gen(t *rapid.T) Case {
 			}
 			c.C.ServerName = scen.ServerName
 		}
+		if family == "cert" && rapid.IntRange(0, 3).Draw(t, "clientauth") == 0 {
+			// the server demands and verifies a client certificate: its lists apply to the client's chain
+			c.S.ClientAuth, c.S.ClientCAs, c.C.Cert = 4, true, "client-ecdsa"
+			if rapid.IntRange(0, 2).Draw(t, "scertsigsOn") == 0 {
+				c.S.CertSigSchemes = genList(t, "scertsigs", []uint16{0x0403, 0x0503, 0x0807, 0x0401}, 1)
+			}
+		}
 	}
 	if rapid.IntRange(0, 9).Draw(t, "repair") != 0 {
 		repair(&c.C, family)
@@ -852,6 +889,11 @@ func gen(t *rapid.T) Case {
 				if len(c.S.SigSchemes) > 0 && !slices.Contains(c.S.SigSchemes, fit) {
 					c.S.SigSchemes = append(c.S.SigSchemes, fit)
 				}
+			}
+			if len(c.S.CertSigSchemes) > 0 && !slices.Contains(c.S.CertSigSchemes, 0x0403) {
+				c.S.CertSigSchemes = append(c.S.CertSigSchemes, 0x0403)
+			} else if c.S.ClientAuth == 4 && len(c.S.CertSigSchemes) == 0 && len(c.S.SigSchemes) > 0 && !slices.Contains(c.S.SigSchemes, 0x0403) {
+				c.S.CertSigSchemes = []uint16{0x0403}
 			}
 			// every fixture chain is signed with ECDSA/SHA-256
 			if len(c.C.CertSigSchemes) > 0 && !slices.Contains(c.C.CertSigSchemes, 0x0403) {
